@@ -1202,5 +1202,5 @@ def run(ctx: Ctx, rep: Report, tier: str) -> None:
 
 
 # what the later rounds (seeding rounds 2-5, refactor twins, defect hunt) added to what the check decides
-LATER_ROUNDS = "the address and group-name spellings are read whole on both sides of an entry (witness lines through the assembled grammar, the group-name reader partially evaluated), the option text is partitioned completely, a refused protocol leaves the object unchanged"
+LATER_ROUNDS = "the address and group-name spellings are read whole on both sides of an entry (witness lines through the assembled grammar, the group-name reader partially evaluated), the option text is partitioned completely, a refused protocol leaves the object unchanged, a platform reads its port names from its own tables at every version"
 EXPLANATION = EXPLANATION.replace(" Does not decide", " Later rounds added: " + LATER_ROUNDS + ". Does not decide", 1) if " Does not decide" in EXPLANATION else EXPLANATION + " Later rounds added: " + LATER_ROUNDS + "."
